@@ -1594,7 +1594,7 @@ impl<K: Elem, V: Elem> MapDrv<K, V> {
     }
 
     fn op_iterate(&mut self, ctx: &mut Ctx, rng: &mut Rng) -> u64 {
-        let sub = rng.below(6);
+        let sub = rng.below(7);
         oplog!(ctx, "iterate sub{}", sub);
         let len = self.map.len();
         let mut n = 0usize;
@@ -1656,6 +1656,37 @@ impl<K: Elem, V: Elem> MapDrv<K, V> {
                     v.check();
                     n += 1;
                 }
+            }
+            5 => {
+                // the provided Iterator methods (nth, skip, step_by, count, last), held to their definitions over next()
+                let k = rng.usize_below(len + 2);
+                let st = 1 + rng.usize_below(4);
+                let hit = self.map.iter().nth(k).map(|(k, v)| {
+                    k.check();
+                    v.check();
+                    k.id()
+                });
+                crate::check!(hit.is_some() == (k < len), "iter().nth({}) is_some = {} with len() {}", k, hit.is_some(), len);
+                if let Some(id) = hit {
+                    crate::check!(self.model.pos(id).is_some(), "iter().nth({}) yielded key {} which the model does not hold", k, id);
+                }
+                let a = self.map.keys().skip(k).count();
+                crate::check!(a == len.saturating_sub(k), "keys().skip({}).count() = {} with len() {}", k, a, len);
+                let b = self.map.values().step_by(st).count();
+                crate::check!(b == (len + st - 1) / st, "values().step_by({}).count() = {} with len() {}", st, b, len);
+                let m1 = self.map.iter_mut().nth(k).is_some();
+                let m2 = self.map.values_mut().nth(k).is_some();
+                crate::check!(m1 == (k < len) && m2 == (k < len), "iter_mut()/values_mut().nth({}) is_some = {}/{} with len() {}", k, m1, m2, len);
+                let l = self.map.keys().last().is_some();
+                crate::check!(l == (len > 0), "keys().last() is_some = {} with len() {}", l, len);
+                let mut it = self.map.iter();
+                let mut seen = 0usize;
+                while it.nth(st - 1).is_some() {
+                    seen += 1;
+                }
+                crate::check!(seen == len / st && it.len() == 0, "repeated iter().nth({}) yielded {} elements with len() {}", st - 1, seen, len);
+                acc = hit.is_some() as u64 ^ ((a as u64) << 8) ^ ((b as u64) << 24) ^ ((seen as u64) << 40);
+                n = len;
             }
             _ => {
                 for (k, v) in &self.map {
